@@ -2,7 +2,7 @@
    run (Gen.v) are the ones the theorems speak about.  Hand-written and stable; it is compiled against the freshly
    generated Gen.v by the C01, C09 and C19 checks.  When the source changes the quoting of U-Boot arguments, a
    black-list, the prompt or a line of the shell initialisation, a proof below no longer goes through. *)
-From TV Require Import Base BaseLemmas Utf8 Regex Channel Hush Session Sh SubIO Boot LogEvent Base64 Proxy PathIO.
+From TV Require Import Base BaseLemmas Utf8 Regex Channel Hush Session Sh SubIO Boot LogEvent Base64 Proxy PathIO SshScp.
 From TVG Require Import Gen.
 From Coq Require Import ZifyBool ZifyN.
 
@@ -126,3 +126,12 @@ Proof.
   split; [intros var value; reflexivity|]. split; [intros var; reflexivity|]. intros out; reflexivity.
 Qed.
 Print Assumptions gen_env_lines_are_the_model.
+
+(* ---- connector/ssh.py: the argv SSHConnector._connect hands to open_channel, for EVERY configuration ---- *)
+Theorem gen_ssh_argv_is_the_model :
+  forall c muxdir, gen_ssh_argv c muxdir = ssh_argv c muxdir.
+Proof.
+  intros c muxdir. unfold gen_ssh_argv, ssh_argv, hk_part, mux_part, oflat, dest.
+  destruct (c_auth c), (c_ign c), (c_mux c); reflexivity.
+Qed.
+Print Assumptions gen_ssh_argv_is_the_model.
